@@ -30,6 +30,7 @@ type Profile struct {
 	SmallWindows         bool // small signing windows (jailing reachable)
 	Limiter              int  // 0 = draw, 1 = force off, 2 = force on
 	EarlyQuiet           bool // keep validator stake changes out of blocks 1..3 (F9) and exits out of block 1 (F11)
+	PowerTies            bool // stake amounts that make two delegatees equally strong
 	F11Narrow            bool // (with EarlyQuiet off) keep out of block 1 only what F11 is about: a genesis validator leaving or being displaced
 	OneGenesisUnbond     bool // at most one genesis stake unbonding at a time (F6)
 	VaryGas              bool
@@ -795,6 +796,22 @@ func (s *GenSource) genTx(w *World, b *Block) ([]byte, string) {
 		}
 		if _, isDeleg := w.Delegs[ak(sp.to)]; !isDeleg && string(sp.to) == string(sp.from.Addr) && pct(t, 85, "enoughSelfStake") {
 			units += uint64(w.Params.minValidatorPower())
+		}
+		if s.P.PowerTies && pct(t, 30, "powerTie") {
+			// make the target exactly as strong as somebody else (ranking ties, in particular at the edge of a full set)
+			have := int64(0)
+			if d, ok := w.Delegs[ak(sp.to)]; ok {
+				have = d.total()
+			}
+			var gaps []int64
+			for _, k := range dk {
+				if g := w.Delegs[k].total() - have; g > 0 && g <= 2000 {
+					gaps = append(gaps, g)
+				}
+			}
+			if len(gaps) > 0 {
+				units = uint64(pick(t, gaps, "tieGap"))
+			}
 		}
 		sp.amount = rigo(units)
 		switch unif(t, 20, "stakeAmtFault") {
